@@ -418,3 +418,94 @@ proof fn lemma_files_log_push(w: &World, ids: Seq<u64>, j: int)
     assert(ids.take(j + 1).drop_last() =~= ids.take(j));
     assert(ids.take(j + 1).last() == ids[j]);
 }
+
+// ---- how World operations transform the log -----------------------------------------------------------
+/// the log depends only on the records
+proof fn lemma_log_same_records(w1: &World, w2: &World)
+    requires same_records(w1, w2)
+    ensures full_log(w2) == full_log(w1)
+{
+    assert forall |id: u64| id < ID_BOUND implies #[trigger] file_log(w1, id) == file_log(w2, id) by {
+        if w1.data.contains_key(id) { assert(w2.data.dom().contains(id)); } else { assert(!w2.data.dom().contains(id)); }
+    }
+    lemma_log_frame(w1, w2, ID_BOUND);
+}
+/// appending a record to the data file with the largest id (which has no hint file) appends to the log
+proof fn lemma_log_push_top(w1: &World, w2: &World, a: u64, rc: Rec)
+    requires world_wf(w1), w1.data.contains_key(a), !w1.hint.contains_key(a),
+             forall |g: u64| #[trigger] w1.data.contains_key(g) ==> g <= a,
+             w2.data.dom() == w1.data.dom(), w2.hint == w1.hint,
+             w2.data[a].recs == w1.data[a].recs.push(rc),
+             forall |g: u64| g != a && w1.data.contains_key(g) ==> #[trigger] w2.data[g] == w1.data[g],
+    ensures full_log(w2) == full_log(w1).push(lrec_of_rec(a, rc))
+{
+    assert(w1.ever.contains(a));
+    assert forall |id: u64| id < a implies #[trigger] file_log(w1, id) == file_log(w2, id) by {
+        if w1.data.contains_key(id) { assert(w2.data.dom().contains(id)); } else { assert(!w2.data.dom().contains(id)); }
+    }
+    lemma_log_frame(w1, w2, a as nat);
+    assert forall |id: u64| a + 1 <= id < ID_BOUND implies !w1.data.contains_key(id) by { }
+    assert forall |id: u64| a + 1 <= id < ID_BOUND implies !w2.data.contains_key(id) by { assert(!w1.data.dom().contains(id)); }
+    lemma_log_gap(w1, (a + 1) as nat, ID_BOUND);
+    lemma_log_gap(w2, (a + 1) as nat, ID_BOUND);
+    assert(w2.data.dom().contains(a));
+    lemma_data_log_push(a, w1.data[a].recs, rc);
+    assert(log_upto(w1, (a + 1) as nat) == log_upto(w1, a as nat) + file_log(w1, a));
+    assert(log_upto(w2, (a + 1) as nat) == log_upto(w2, a as nat) + file_log(w2, a));
+    assert(log_upto(w1, a as nat) + file_log(w1, a).push(lrec_of_rec(a, rc)) =~= (log_upto(w1, a as nat) + file_log(w1, a)).push(lrec_of_rec(a, rc)));
+}
+/// creating an empty data file does not change the log
+proof fn lemma_log_new_file(w1: &World, w2: &World, id: u64)
+    requires !w1.data.contains_key(id), w2.data == w1.data.insert(id, empty_data()), w2.hint == w1.hint, !w1.hint.contains_key(id)
+    ensures full_log(w2) == full_log(w1)
+{
+    assert forall |g: u64| g < ID_BOUND implies #[trigger] file_log(w1, g) == file_log(w2, g) by {
+        if g == id { assert(data_log(id, Seq::<Rec>::empty()) =~= Seq::<LRec>::empty()); }
+    }
+    lemma_log_frame(w1, w2, ID_BOUND);
+}
+/// what reads after a restart: the map the recovered key directory implements
+spec fn recover_model(w: &World) -> Map<Bytes, Bytes> { model(spec_recover(w), w) }
+
+/// (broadcast) the log depends only on the records
+broadcast proof fn lemma_b_log_same(w1: &World, w2: &World)
+    requires #[trigger] same_records(w1, w2)
+    ensures full_log(w2) == full_log(w1)
+{
+    lemma_log_same_records(w1, w2);
+}
+
+spec fn apply_model(m: Map<Bytes, Bytes>, k: Bytes, v: Option<Bytes>) -> Map<Bytes, Bytes> {
+    if v is Some { m.insert(k, v->0) } else { m.remove(k) }
+}
+/// after a record has been appended to the active file, a restart would see it applied
+proof fn lemma_recover_after_append(w0: &World, w1: &World, kd: Map<Bytes, KeyDirEntry>, a: u64, rc: Rec)
+    requires world_wf(w0), world_wf(w1), index_ok(kd, w0), world_extends(w0, w1),
+             full_log(w1) == full_log(w0).push(lrec_of_rec(a, rc)),
+             w1.data.contains_key(a), rec_at(w1.data[a].recs, rc.pos) == Some(rc),
+    ensures
+        recover_from(Map::empty(), full_log(w1)) == apply_l(recover_from(Map::empty(), full_log(w0)), lrec_of_rec(a, rc)),
+        spec_recover(w0) == kd ==> index_ok(spec_recover(w1), w1) && recover_model(w1) == apply_model(model(kd, w0), rc.key, rc.val),
+{
+    lemma_recover_push(Map::empty(), full_log(w0), lrec_of_rec(a, rc));
+    if spec_recover(w0) == kd {
+        let kd2 = spec_recover(w1);
+        lemma_index_mono(w0, w1, kd);
+        assert forall |k: Bytes| kd2.contains_key(k) implies loc_ok(w1, k, #[trigger] kd2[k]) by {
+            if k != rc.key { assert(kd.contains_key(k)); assert(loc_ok(w1, k, kd[k])); }
+        }
+        assert(recover_model(w1) =~= apply_model(model(kd, w0), rc.key, rc.val)) by {
+            assert forall |k: Bytes| kd2.contains_key(k) implies #[trigger] model(kd2, w1)[k] == apply_model(model(kd, w0), rc.key, rc.val)[k] by {
+                if k != rc.key { assert(kd.contains_key(k)); assert(model(kd, w1)[k] == model(kd, w0)[k]); }
+            }
+        }
+    }
+}
+/// (broadcast) what a restart reads depends only on the records
+broadcast proof fn lemma_b_recover_model_same(w1: &World, w2: &World)
+    requires #[trigger] same_records(w1, w2), world_wf(w1), index_ok(spec_recover(w1), w1)
+    ensures #[trigger] recover_model(w2) == recover_model(w1), index_ok(spec_recover(w2), w2)
+{
+    lemma_log_same_records(w1, w2);
+    lemma_same_records(w1, w2, spec_recover(w1));
+}
